@@ -81,13 +81,44 @@ Definition ffs_step (rec : ty -> option table) (acc : option table) (f : fieldde
       end
   end.
 
+(* reflect.Type.FieldByName(name) on struct sn, as the final loop of FieldsFromStruct uses it
+   (reflect implements the selector rule of the language): the entry the name ends up with.
+   None = the entry is deleted (the field is unexported). *)
+Definition res_tag (sn name : string) : option tag :=
+  match go_resolve_field te sn name with
+  | RField _ t true => Some (mkTag t false false)
+  | RField _ _ false => None
+  | _ => Some amb_tag
+  end.
+
+(* `for name := range types { ... }` at the end of FieldsFromStruct (since fix b9d2c0f): every
+   collected name is resolved again the way Go resolves a selector *)
+Definition resolve_entries (sn : string) (tb : table) : table :=
+  flat_map (fun e => match res_tag sn (fst e) with Some tg => [(fst e, tg)] | None => [] end) tb.
+
 (* FieldsFromStruct; None = recursion deeper than the fuel *)
 Fixpoint ffs (fuel : nat) (t : ty) {struct fuel} : option table :=
   match dereference t with
   | TStruct sn =>
       match fuel with
       | O => None
-      | S n => fold_left (ffs_step (ffs n)) (fields_of te (TStruct sn)) (Some [])
+      | S n =>
+          match fold_left (ffs_step (ffs n)) (fields_of te (TStruct sn)) (Some []) with
+          | Some tb => Some (resolve_entries sn (perm tb))
+          | None => None
+          end
+      end
+  | _ => Some []
+  end.
+
+(* FieldsFromStruct BEFORE fix b9d2c0f (kept for the historical examples of the two repaired
+   findings C16-shadow-order and C16-depth; nothing else uses it) *)
+Fixpoint ffs_old (fuel : nat) (t : ty) {struct fuel} : option table :=
+  match dereference t with
+  | TStruct sn =>
+      match fuel with
+      | O => None
+      | S n => fold_left (ffs_step (ffs_old n)) (fields_of te (TStruct sn)) (Some [])
       end
   | _ => Some []
   end.
